@@ -304,6 +304,53 @@ def err1(ctx):
             ctx.check(ok, key, where(b, cs.point), '%s: %s' % (kind, why), 'I/O error can be lost during recovery (%s): %s' % (kind, why))
 
 
+@rule('ERR5', ['C11'], floor=1, template='error-not-dropped')
+def err5(ctx):
+    """No I/O-bearing Result is consumed as an iterator or turned into an Option on the recovery path: `Result` is
+    `IntoIterator` (zero items for Err), so `iter.flat_map(|x| fallible(x))` / `.flatten()` / `for v in result` /
+    `result.iter()` silently drop the error, as `.ok()` does. (ERR1 judges how a call result is consumed inside the
+    body that made the call; a closure that returns it hands the question to the adaptor it is given to.)"""
+    iob = iob_enums(ctx)
+    def io_bearing_result(ty):
+        e = err_type_of(strip_crate(ty or ''))
+        return e is not None and (e == IOERR or e in iob)
+    n = 0
+    bodies = list(recovery_bodies(ctx))
+    seen = {b.id for b in bodies}
+    # closures created by those bodies (transitively)
+    work = list(bodies)
+    while work:
+        b = work.pop()
+        for (_p, fj) in b.fn_values:
+            node = fj.get('node')
+            cb = ctx.f.bodies.get(node) if node is not None else None
+            if cb is not None and cb.id not in seen:
+                seen.add(cb.id)
+                bodies.append(cb)
+                work.append(cb)
+    bad = []
+    for b in bodies:
+        n += 1
+        for cs in b.calls:
+            nm = cs.name
+            m = re.search(r'Iterator>::(flat_map|flatten)(::<(.*)>)?$', nm)
+            if m:
+                # flat_map::<U, F>: U is the closure's return type; flatten: Self::Item
+                targs = m.group(3) or ''
+                item_is_io_result = 'std::result::Result<' in targs and (IOERR in targs or any(e_ in targs for e_ in iob))
+                if not item_is_io_result and m.group(1) == 'flatten':
+                    recv = nm.split(' as std::iter::Iterator>')[0]
+                    item_is_io_result = 'std::result::Result<' in recv and (IOERR in recv or any(e_ in recv for e_ in iob))
+                if item_is_io_result:
+                    bad.append('%s (%s: %s over io::Result items)' % (b.loc(cs.point), b.path, m.group(1)))
+            m2 = re.match(r'^<std::result::Result<(.*)> as std::iter::IntoIterator>::into_iter$', nm) or re.match(r'^std::result::Result::<(.*)>::(iter|iter_mut|ok|unwrap_or_default)$', nm)
+            if m2 and (IOERR in m2.group(1) or any(e_ in m2.group(1) for e_ in iob)) and not b.is_test:
+                # `.ok()` on a non-io Result (parse::<u64>) is none of our business: the error type decides
+                bad.append('%s (%s: %s)' % (b.loc(cs.point), b.path, nm[-50:]))
+    ctx.check(not bad, 'no-result-as-iterator', '-', 'no io-bearing Result is flattened, iterated or option-ised in the %d bodies of the recovery path' % n,
+              'an I/O error can vanish during recovery: %s -- an unreadable WAL file would be skipped and open would return a log built from a partially read WAL' % sorted(set(bad)), nontrivial=False)
+
+
 @rule('ERR2', ['C10', 'C11'], floor=3, template='loop-progress')
 def err2(ctx):
     """No loop on the recovery path goes round again while a result may still hold an I/O error."""
